@@ -43,7 +43,7 @@ type c19cOp struct {
 type c19cCase struct {
 	Initial int      `json:"initial"`
 	Boot    bool     `json:"boot,omitempty"` // the initial sets are fetched from the chain, as at start-up, instead of being handed in
-	ChainN  int      `json:"chainn"` // the chain knows sets 0..ChainN
+	ChainN  int      `json:"chainn"`         // the chain knows sets 0..ChainN
 	Ops     []c19cOp `json:"ops"`
 }
 
